@@ -282,7 +282,12 @@ func genParserTrace(r *RNG, tier string, o ptOpts) *Trace {
 		}
 		t.Ops = ops
 	default:
-		t.Ops = genParserOps(r, &spec, pg, n)
+		if o.pg.wResetData > 0 && r.Chance(0.04) {
+			t.Ops = genResetRecords(r, &spec, n) // records handed over with Reset only
+			t.Note += " reset-records"
+		} else {
+			t.Ops = genParserOps(r, &spec, pg, n)
+		}
 	}
 	return t
 }
